@@ -1,2 +1,26 @@
 #!/bin/sh
-exit 0
+# setup_cmd: build the whole framework from files on disk only (offline).
+set -u
+V=/verif
+cd $V
+export GOFLAGS=-mod=mod GOPROXY=off GOSUMDB=off GOTOOLCHAIN=local
+rc=0
+# 1. translator + generated constants
+tools/genconsts.sh || rc=1
+# 2. shared Coq library
+( cd coq/lib && { [ -f Makefile ] || coq_makefile -f _CoqProject -o Makefile >/dev/null 2>&1; } && timeout 3000 make -j16 >build.log 2>&1 ) || { echo "coq/lib build failed"; tail -20 coq/lib/build.log; rc=1; }
+# 3. every domain: proofs, extraction, model binary (in parallel)
+for d in $(ls coq | grep -v -e '^lib$' -e '^gen$'); do
+  [ -f coq/$d/_CoqProject ] || continue
+  ( tools/build_domain.sh $d || echo "domain $d: build problems (see coq/$d/build.log)" ) &
+done
+wait
+# 4. Go harnesses
+cp /repo/go.sum harness/go.sum 2>/dev/null
+mkdir -p build
+for d in $(ls harness); do
+  [ -f harness/$d/main.go ] || continue
+  mkdir -p build/$d
+  ( cd harness && go1.26 build -tags verif -o $V/build/$d/harness ./$d ) || { echo "harness $d failed to build"; rc=1; }
+done
+exit $rc
